@@ -1512,9 +1512,26 @@ impl World {
             t.push(ca);
             vrps.insert(t);
         }
+        // What is served: the RRDP snapshot named by the notification file
+        // and the rsync tree, compared with the repository content (they
+        // agree once the RRDP update task that every publication leaves in
+        // the queue has run).
+        let repo_dir = self.env.dir.join("repo");
+        let differs = |served: &rp::Objects| -> usize {
+            served.iter().filter(|(k, v)| objects.get(*k) != Some(v)).count()
+                + objects.keys().filter(|k| !served.contains_key(*k)).count()
+        };
+        let rrdp_diff = match rp::read_rrdp_snapshot(&repo_dir) {
+            Ok((served, _, _)) => differs(&served) as i64,
+            Err(_) => -1,
+        };
+        let rsync_diff = differs(
+            &rp::read_rsync_tree(&repo_dir, "rsync://krill.example.org/repo/")
+        ) as i64;
         json!({
             "vrps": vrps, "problems": res.problems, "odd": odd,
             "orphans": res.orphans,
+            "rrdpdiff": rrdp_diff, "rsyncdiff": rsync_diff,
         })
     }
 
